@@ -507,6 +507,31 @@ def lb45(F, R):
             ads = iter_adaptors(e.args[0])
             if src is not None and not ads:
                 str_arm_ok = True
+                # ... and every character that passes the filter is written: the filtered iteration is collected / extended
+                # into the text as a whole, or walked by a loop that emits each item under no further condition
+                def is_filtered(x, e=e):
+                    return x[0] == "adapt" and x[1] == "filter" and strip_sites(x[2]) == strip_sites(e.args[0]) and x[3] and \
+                        strip_sites(x[3][0]) == strip_sites(e.args[1])
+                users = [c for c in raw if c.kind == "call" and c is not e and any(mentions(a, is_filtered) for a in c.args)]
+                whole = [c for c in users if c.name in ("collect", "from_iter", "extend", "join", "concat", "for_each")]
+                loops = [c for c in users if c.name == "next"]
+                if loops and not whole:
+                    def the_char(a, depth=0):
+                        """a is the loop's character itself (or its own text form)"""
+                        a = strip_load(a)
+                        if a[0] == "item":
+                            return mentions(a[1], is_filtered)
+                        if a[0] == "call" and a[1].split("::")[-1] in ("to_string", "encode_utf8", "as_str", "deref", "clone") and a[2] and depth < 3:
+                            return the_char(a[2][0], depth + 1)
+                        return False
+                    emits = [c for c in users if c.name in ("push", "write_char", "push_str", "write_str") and len(c.args) > 1 and
+                             the_char(c.args[1])]
+                    cond = [f for c in emits for f in c.facts
+                            if not (f[0] == "in" and strip_load(f[1])[0] == "discr") and "Level" not in repr(f)]
+                    if not emits or cond:
+                        str_arm_ok = False
+                elif not whole:
+                    str_arm_ok = False
         # the same as a loop: `for c in a { if c == PAD { continue } out.push(c) }`
         if e.kind == "call" and e.name in ("push", "write_char") and len(e.args) > 1 and \
                 any(f[0] == "in" and f[2] == frozenset(["Str"]) for f in e.facts):
